@@ -666,6 +666,56 @@ int __wrap_pthread_mutex_lock(pthread_mutex_t *m) {
   }
 }
 
+// pthread_once: the control word is modelled like a mutex held for the whole initialisation, plus a "done"
+// flag; every caller returns ordered after the initialisation (that is the function's contract)
+struct OnceM { int state = 0; int owner = -1; VC vc; bool vc_set = false; };
+static std::map<pthread_once_t *, OnceM> g_onces;
+int __wrap_pthread_once(pthread_once_t *ctl, void (*fn)(void)) {
+  if (!g_on || g_cur < 0) {
+    Busy busy;
+    OnceM &o = g_onces[ctl];
+    if (o.state == 2) { if (o.vc_set) vc_join(g_main_vc, o.vc); return 0; }
+    o.state = 2;
+    fn();
+    o.vc = g_main_vc; o.vc_set = true;
+    g_main_vc.c[MAXT]++;
+    return 0;
+  }
+  decision_point(false, true, false);
+  for (;;) {
+    g_busy++;
+    OnceM &o = g_onces[ctl];
+    g_busy--;
+    if (o.state == 2) {
+      if (o.vc_set) vc_join(g_tasks[g_cur].vc, o.vc);
+      sync_event(1, objid((uintptr_t)ctl));
+      return 0;
+    }
+    if (o.state == 0) {
+      o.state = 1; o.owner = g_cur;
+      sync_event(1, objid((uintptr_t)ctl));
+      fn();
+      g_busy++;
+      OnceM &o2 = g_onces[ctl];
+      g_busy--;
+      o2.state = 2; o2.owner = -1;
+      o2.vc = g_tasks[g_cur].vc; o2.vc_set = true;
+      g_tasks[g_cur].vc.c[g_cur]++;
+      for (int i = 0; i < g_ntasks; i++)
+        if (g_tasks[i].state == T_BLOCKED && g_tasks[i].blocked_on == (void *)ctl) { g_tasks[i].state = T_RUNNABLE; g_tasks[i].blocked_on = nullptr; }
+      sync_event(2, objid((uintptr_t)ctl));
+      decision_point(false, true, false);
+      return 0;
+    }
+    // another task is initialising: wait for it
+    g_tasks[g_cur].state = T_BLOCKED;
+    g_tasks[g_cur].blocked_on = (void *)ctl;
+    sync_event(7, objid((uintptr_t)ctl));
+    decision_point(true, true, false);
+    if (g_tasks[g_cur].state == T_BLOCKED) switch_to(-1);
+  }
+}
+
 int __wrap_pthread_mutex_unlock(pthread_mutex_t *m) {
   g_busy++;
   MutexM &mm = g_mutexes[m];
